@@ -79,11 +79,12 @@ def main():
         meta["demo_package"] = pkgdir
     finally:
         subprocess.run(["git", "-C", "/repo", "worktree", "remove", "--force", wt], stdout=subprocess.DEVNULL, stderr=subprocess.DEVNULL)
-    # ---- my checks against it
-    if subprocess.run(["git", "-C", "/repo", "diff", "--quiet"]).returncode:
+    # ---- my checks against it (skipped with --verify-only: tools/seedrecheck.py measures later)
+    verify_only = "--verify-only" in sys.argv
+    if not verify_only and subprocess.run(["git", "-C", "/repo", "diff", "--quiet"]).returncode:
         print("/repo dirty"); return 2
     results = {}
-    for p in [prop] + extra:
+    for p in ([] if verify_only else [prop] + extra):
         ev = "/verif/evidence/%s.json" % p
         bak = None
         if os.path.exists(ev):
@@ -107,7 +108,8 @@ def main():
         print("check %s quick: %s %s" % (p, verdict, sig))
         if pr.returncode not in (0, 1):
             print(pr.stdout[-1500:])
-    meta["checks"] = results
+    if not verify_only:
+        meta["checks"] = results
     dst = "/verif/seeded/%s" % tag
     os.makedirs(dst, exist_ok=True)
     shutil.copy(patch, os.path.join(dst, "patch.diff"))
